@@ -68,7 +68,7 @@ fn gen_schedule(rng: &mut Rng) -> Schedule {
         1 => rng.range(1, 4),
         2 => rng.range(5, 16),
         3 => rng.range(17, 40),
-        4 => rng.range(41, 63),
+        4 => rng.range(41, 64),
         _ => rng.range(1, 8),
     } as u32;
     let rand_pct = match rng.below(5) {
@@ -82,17 +82,12 @@ fn gen_schedule(rng: &mut Rng) -> Schedule {
             s.push_random();
         } else {
             let k = rng.below(maxbits as usize + 1) as u32;
+            let mask = if maxbits >= 64 { u64::MAX } else { (1u64 << maxbits) - 1 };
             let id: u64 = match rng.below(4) {
                 0 => 0,
-                1 => (1u64 << k).wrapping_sub(1),
-                2 => {
-                    if k < 63 {
-                        1u64 << k
-                    } else {
-                        (1u64 << 62) + 5
-                    }
-                }
-                _ => rng.next_u64() & ((1u64 << maxbits) - 1),
+                1 => if k >= 64 { u64::MAX } else { (1u64 << k).wrapping_sub(1) },
+                2 => 1u64 << k.min(63),
+                _ => rng.next_u64() & mask,
             };
             s.push_task((id as usize).into());
         }
@@ -101,14 +96,36 @@ fn gen_schedule(rng: &mut Rng) -> Schedule {
 }
 
 fn sched_json(s: &Schedule) -> Value {
-    let (seed, v) = sim::schedule_to_vec(s);
-    json!({"seed": seed.to_string(), "steps": v})
+    use shuttle_engine::scheduler::ScheduleStep;
+    // task ids go up to 2^64-1: written as decimal strings, "r" = random marker
+    let steps: Vec<String> = s
+        .steps
+        .iter()
+        .map(|st| match st {
+            ScheduleStep::Task(t) => usize::from(*t).to_string(),
+            ScheduleStep::Random => "r".to_string(),
+        })
+        .collect();
+    json!({"seed": s.seed.to_string(), "steps": steps})
 }
 
 fn sched_from_json(v: &Value) -> Schedule {
     let seed: u64 = v["seed"].as_str().and_then(|s| s.parse().ok()).unwrap_or(0);
-    let steps: Vec<i64> = v["steps"].as_array().map(|a| a.iter().filter_map(|x| x.as_i64()).collect()).unwrap_or_default();
-    vec_to_schedule(seed, &steps)
+    let mut s = Schedule::new(seed);
+    for x in v["steps"].as_array().cloned().unwrap_or_default() {
+        match x.as_str() {
+            Some("r") => s.push_random(),
+            Some(d) => s.push_task(d.parse::<usize>().unwrap_or(0).into()),
+            None => {
+                // legacy numeric form
+                match x.as_i64() {
+                    Some(n) if n >= 0 => s.push_task((n as usize).into()),
+                    _ => s.push_random(),
+                }
+            }
+        }
+    }
+    s
 }
 
 fn decode(input: &str) -> Result<Option<Schedule>, String> {
